@@ -22,7 +22,9 @@ RULE = ('random atomically balanced stoichiometries = rational null-space vector
         'chemicals.formula_array restricted to 2-6 chemicals (integer and fractional coefficients; ~10% deliberately '
         'unbalanced), every participating chemical as reactant (also product-side and `reactant=None`), X dyadic in '
         '[0,1] (few outside), 1-4 reactions as Reaction / ParallelReaction / SeriesReaction / ReactionSystem, defined '
-        'by strings and dicts through the real parsers (phase-less and phase-tagged), mol and wt basis (setter), '
+        'by strings and dicts through the real parsers (phase-less and phase-tagged), mol and wt basis (setter, '
+        'constructor), ~15% written unbalanced and repaired by correct_atomic_balance (method with default / one / two '
+        'constants, constructor flag), '
         'applied to ndarrays, SparseVector/SparseArray, Streams and MultiStreams, same and other property package '
         '(superset, subset, permutation, equal-but-separately-compiled); ~30% of the cases derive the used reactions '
         'through copy(basis=...) / copy + basis setter and apply the originals too; '
@@ -190,6 +192,7 @@ class World:
         else:
             raise ValueError(dk)
         kw = dict(extra)
+        if kv(toks, 'correct') == '1' and 'check_atomic_balance' not in kw: kw['correct_atomic_balance'] = True
         if ph != '-': kw['phases'] = ph
         return tmo.Reaction(definition, reactant=None if r == 'auto' else r, X=X, chemicals=chems,
                             basis=basis, **kw)
@@ -242,11 +245,14 @@ class World:
             # (the gate's documented tolerance is an absolute 1e-3 on the rescaled molar coefficients)
             st_ = np.asarray(rxn._get_stoichiometry_by_mol().to_array(), float).reshape(-1, rxn.chemicals.size).sum(0)
             imb = float(np.abs(rxn.chemicals.formula_array @ st_).max())
-            if chk == '1' and not bal and imb > 2e-3:
+            corrected = kv(toks, 'correct') == '1'      # (then chk is about the definition as written, not `rxn`)
+            if chk == '1' and not bal and imb > 2e-3 and not corrected:
                 failures.append({'signature': 'rxn:balance-check-accepts-unbalanced', 'op_index': i,
                                  'what': f'check_atomic_balance=True accepts `{payload}` although formula_array @ '
                                          f'stoichiometry = {rxn.chemicals.formula_array @ np.asarray(rxn._get_stoichiometry_by_mol().to_array()).reshape(-1, rxn.chemicals.size).sum(0)!r}'[:400]})
-            if chk == '0' and bal and imb < 5e-4:
+            if kv(toks, 'correct') == '1':
+                self.check_rebalanced(name, self.objs[name], i, failures)
+            if chk == '0' and bal and imb < 5e-4 and not corrected:
                 failures.append({'signature': 'rxn:balance-check-rejects-balanced', 'op_index': i,
                                  'what': f'check_atomic_balance=True rejects the balanced `{payload}`'})
             return self.show_rxn(rxn, PKGS[k]['chems']) + ' chk=' + chk
@@ -255,6 +261,17 @@ class World:
             e['obj'].basis = toks[2]
             e['recipe'].append(toks[2])
             return self.show_rxn(e['obj'], PKGS[e['pkg']]['chems'])
+        if op == 'balance':
+            e = self.objs[toks[1]]
+            rxn = e['obj']
+            cs = kv(toks, 'constants', '-')
+            if cs == '-': rxn.correct_atomic_balance()
+            elif ',' in cs: rxn.correct_atomic_balance(constants=cs.split(','))
+            else: rxn.correct_atomic_balance(constants=cs if len(cs) & 1 else [cs])
+            e['bal'] = self.balanced(rxn)
+            e['recipe'].append(('balance', cs))
+            self.check_rebalanced(toks[1], e, i, failures)
+            return self.show_rxn(rxn, PKGS[e['pkg']]['chems'])
         if op == 'show':
             e = self.objs[toks[1]]
             self.check_definition(toks[1], e, i, failures)
@@ -287,6 +304,22 @@ class World:
             return self.call(toks, i, failures)
         raise ValueError('unknown op ' + line)
 
+    def check_rebalanced(self, name, e, i, failures):
+        """after correct_atomic_balance: balanced, and still on a per-reactant basis (coefficient -1)"""
+        rxn = e['obj']
+        ri = rxn._reactant_index
+        nu = np.asarray(rxn._stoichiometry.to_array(), float)
+        cr = float(nu[int(ri[0]), int(ri[1])] if rxn._phases else nu[int(ri)])
+        if abs(cr + 1.) > 1e-9:
+            failures.append({'signature': 'rxn:not-per-reactant', 'op_index': i,
+                             'what': f'after correct_atomic_balance the coefficient of the reactant of {name} is '
+                                     f'{cr!r}, not -1: the reaction converts {-cr!r}·X of its reactant'})
+        elif not self.balanced(rxn):
+            failures.append({'signature': 'rxn:balance-not-achieved', 'op_index': i,
+                             'what': f'correct_atomic_balance left {name} unbalanced'})
+        else:
+            self.check_definition(name, e, i, failures)
+
     def check_definition(self, name, e, i, failures):
         """a single reaction still has the stoichiometry it was defined with (rescaled to its reactant)"""
         intent = self.meta.get('intent', {}).get(e.get('alias', name))
@@ -314,7 +347,11 @@ class World:
             if e['kind'] == 'single':
                 toks, payload = e['recipe'][0]
                 rxn = self.build_rxn(toks, payload)
-                for b in e['recipe'][1:]: rxn.basis = b
+                for b in e['recipe'][1:]:
+                    if isinstance(b, tuple):
+                        cs = b[1]
+                        rxn.correct_atomic_balance(constants=None if cs == '-' else cs.split(','))
+                    else: rxn.basis = b
                 rxn.basis = 'wt' if rxn.basis == 'mol' else 'mol'
                 return rxn
             ms = [self.twin(m) for m in e['members']]
@@ -778,6 +815,10 @@ def run_impl(case: Case) -> ImplResult:
         elif toks[0] == 'rxn':
             tags.add('def:' + kv(toks, 'def'))
             if kv(toks, 'basis') == 'wt': tags.add('def:on-weight-basis')
+            if kv(toks, 'correct') == '1': tags.add('balance:constructor-flag')
+        elif toks[0] == 'balance':
+            cs = kv(toks, 'constants', '-')
+            tags.add('balance:constants-' + ('default' if cs == '-' else ('two' if ',' in cs else 'one')))
             if kv(toks, 'r') == 'auto': tags.add('reactant:auto')
         if o.startswith('err='): tags.add(o)
         if toks[0] == 'call' and o.startswith('out='):
@@ -999,12 +1040,19 @@ def render_str(rng, d, names_of, phase_of=None):
     return plus.join(left) + arrow + plus.join(right)
 
 
-def gen_rxn(rng, name, k, phases, intent_out, force_basis=None, exact_bias=False, bad=None, define_wt=False):
+def gen_rxn(rng, name, k, phases, intent_out, force_basis=None, exact_bias=False, bad=None, define_wt=False,
+            rebalance=None):
     """returns list of op lines defining reaction `name` on package k.
     `bad` (malformed stream only): 'noreactant' | 'auto-many' | 'phase-kw' | 'x-out'"""
     ids = PKGS[k]['ids']
-    balanced = rng.random() < 0.9
+    balanced = rng.random() < 0.9 or bool(rebalance)
     d = gen_stoich(rng, ids, balanced)
+    if rebalance:
+        # the balanced direction must be the only one over the chemicals that take part
+        for _ in range(60):
+            if len(nullspace(sorted(d))) == 1: break
+            d = gen_stoich(rng, ids, True)
+        if len(nullspace(sorted(d))) != 1: rebalance = None
     if bad == 'auto-many':
         for _ in range(50):
             if sum(1 for c in d.values() if c < 0) >= 2: break
@@ -1044,6 +1092,18 @@ def gen_rxn(rng, name, k, phases, intent_out, force_basis=None, exact_bias=False
             if 1 < len(set(phase_of.values())) < len(phases): phases_kw = '-'
     how = rng.random()
     basis = force_basis or 'mol'
+    d_true = d
+    constants = '-'
+    if rebalance:
+        # what is written is NOT balanced: the coefficients of the chemicals that are not held constant are off by
+        # random positive factors; correct_atomic_balance(constants) has to come back to the balanced direction
+        r3 = rng.random()
+        if rebalance == 'ctor' or r3 < 0.35: held = [ru]; constants = '-'
+        elif r3 < 0.8: held = [rng.choice(part)]; constants = U[held[0]].ID
+        else: held = rng.sample(part, min(2, len(part))); constants = ','.join(U[u].ID for u in held)
+        g = rng.choice([F(1), F(1), F(2), F(1, 2), F(3)])
+        d = {u: (c * g if u in held else c * rng.choice([F(1, 2), F(2), F(3), F(1, 4), F(3, 2), F(5)]))
+             for u, c in d_true.items()}
     if how < 0.6:
         dk, payload = 'str', render_str(rng, d, names_of, phase_of)
     elif phases:
@@ -1062,10 +1122,19 @@ def gen_rxn(rng, name, k, phases, intent_out, force_basis=None, exact_bias=False
     pt = sorted(phases_kw if phases_kw != '-' else (set(phase_of.values()) if phase_of else ''))
     nrows = max(1, len(pt))
     nu = [[F(0)] * len(ids) for _ in range(nrows)]
-    for u, c in d.items():
+    for u, c in d_true.items():
         row = pt.index(phase_of[u]) if phase_of else 0
-        nu[row][ids.index(u)] = F(float(c))
+        nu[row][ids.index(u)] = F(float(c)) if not rebalance else c
     intent_out[name] = {'nu': [[str(x) for x in r] for r in nu], 'basis': 'mol'}
+    if rebalance:
+        xs = ';'.join(','.join(str(x) for x in r) for r in nu)
+        if rebalance == 'ctor':
+            ops[0] = ops[0].replace(' def=', f' correct=1 x={xs} def=', 1)
+        else:
+            if basis == 'wt' and rng.random() < 0.5:
+                ops.append(f'setbasis {name} wt'); basis = 'mol'        # balance on the weight basis
+            ops.append(f'balance {name} constants={constants} x={xs}')
+        d = d_true
     if basis == 'wt' and define_wt:
         # DEFINED on the weight basis: the constructor gets mass coefficients ν_j·MW_j and basis='wt'
         MW = PKGS[k]['chems'].MW
@@ -1195,8 +1264,10 @@ def gen_case(rng):
             origs.append((name, pt))
             used_names.append(name + 'c')
             return name + 'c', len(defs) - 1
+        wtdef = force_basis == 'wt' and rng.random() < 0.35
+        reb = rng.choice(['method', 'method', 'ctor']) if (not wtdef and not bad and rng.random() < 0.15) else None
         o, d, ru, X, pt = gen_rxn(rng, name, rk, phases, intent, force_basis, exact_bias, bad,
-                                  define_wt=(force_basis == 'wt' and rng.random() < 0.35))
+                                  define_wt=wtdef, rebalance=reb)
         body.extend(o); defs.append((name, d, ru, X)); pts.append(pt)
         used_names.append(name)
         return name, len(defs) - 1
